@@ -45,6 +45,31 @@ PROPS = {
         "trusted": ["Pubkey::try_find_program_address is a parameter of the theorems; its Lean implementation (Ed25519.pda) is validated against solana-pubkey by the stream, not proved"],
         "assumptions": COMMON_ASSUME,
     },
+    "C06": {
+        "lean_module": "SplProofs.C06",
+        "streams": ["C06"],
+        "rule": "stream privileges: scenarios over a 6-key world (so fixed keys collide with existing metas and extra keys repeat): instructions with 0..5 metas with duplicate keys and mixed flags, stored lists of 0..5 configs of every kind built through the real init (sometimes with one corrupted byte), instruction data 0..80 bytes;  off-chain helper with a fetch map (present / absent accounts) and CPI helper with initial infos mirroring the metas and a shuffled pool; oracle = the four privilege "
+                "clauses evaluated on Instruction.accounts; non-trivial = >= 2 appended metas or an appended key that collides with an existing meta",
+        "trusted": ["Pubkey::try_find_program_address is a parameter of the theorems (validated executable instance)"],
+        "assumptions": COMMON_ASSUME,
+    },
+    "C07": {
+        "lean_module": "SplProofs.C07",
+        "streams": ["C07"],
+        "rule": "stream check-infos: scenarios over a 6-key world (so fixed keys collide with existing metas and extra keys repeat): instructions with 0..5 metas with duplicate keys and mixed flags, stored lists of 0..5 configs of every kind built through the real init (sometimes with one corrupted byte), instruction data 0..80 bytes;  accepted account lists (each config resolved against the final list, incl. forward references) and every single-field mutation of them: one key, one signer flag, one "
+                "writable flag, one account dropped / inserted / swapped / appended, lists shorter than the config list, malformed stored bytes; oracle = iff-statement re-evaluated with an independent resolver; "
+                "non-trivial = stored list with >= 1 config",
+        "trusted": ["Pubkey::try_find_program_address is a parameter of the theorems (validated executable instance)"],
+        "assumptions": COMMON_ASSUME,
+    },
+    "C08": {
+        "lean_module": "SplProofs.C08",
+        "streams": ["C08"],
+        "rule": "stream offchain-vs-cpi: scenarios over a 6-key world (so fixed keys collide with existing metas and extra keys repeat): instructions with 0..5 metas with duplicate keys and mixed flags, stored lists of 0..5 configs of every kind built through the real init (sometimes with one corrupted byte), instruction data 0..80 bytes;  both helpers run on the same scenario (fetcher = the data the infos hold), pool = a random permutation of the world's accounts, sometimes incomplete or with a duplicate; "
+                "oracle = both fail or both succeed with identical metas (CPI may additionally fail only when the pool lacks a resolved key), untouched prefix, one meta per config, lockstep infos; non-trivial as C06",
+        "trusted": ["Pubkey::try_find_program_address is a parameter of the theorems (validated executable instance)", "the async off-chain helper is driven by a single-poll executor (futures::executor::block_on)"],
+        "assumptions": COMMON_ASSUME + ["precondition of the property: initial infos mirror the instruction's metas; the fetcher returns the data the infos hold"],
+    },
     "C09": {
         "lean_module": "SplProofs.C09",
         "streams": ["C09"],
